@@ -98,6 +98,11 @@ CLAIMED = {
             "PARTIAL CLAIM. Decided, for every value that crosses a seam in a simulated run - MlsMessage of every kind (commit, proposal, application, Welcome, GroupInfo, key package; public and private), exported trees, CommitSecrets, ExternalSnapshot, stored snapshots and epoch records; group sizes pushed past the 64 B and 16 KiB varint boundaries: decode(encode(v)) re-encodes to the same bytes, consumes exactly the bytes written, and the reported encoded length equals the byte count. For every corrupted copy: no panic, peak allocation during the decode <= 1024 x input + 64 KiB, and if it decodes the value re-encodes to exactly the consumed prefix (which also rules out non-minimal varints and prefixes reaching beyond the input). A flipped stored byte never makes load_group panic or over-allocate. NOT decided: 'for every value of a wire type whatsoever' - structural generation of arbitrary values of all derive-macro types is input generation without schedule or fault and is outside this family.",
             "trusted: the counting allocator (thread-local, only active around the decode call); one known finding (non-canonical map order accepted in ExternalSnapshot) listed in known_findings.json",
             "DESIGN.md §6.C12"),
+    "C10": ("exploration",
+            "deterministic simulation with proposal templates of known verdict (valid, or invalid for exactly one stated reason) by value and by reference, receivers that cached the proposals in different orders or miss one, and a forger (B-FORGE) that hand-writes correctly signed and MACed commits carrying invalid proposal sets",
+            "(1) Every commit an honest member builds is accepted by every member holding the referenced proposals (base liveness oracle), all members report the same applied proposals for a commit, and a receiver whose cache equals the committer's reports the same unused proposals; a member missing a referenced proposal rejects with its state unchanged and succeeds after redelivery. (2) By-value templates - removal of the committer, double removal, unknown PSK, the same key package twice, a credential the (common) identity policy rejects, re-init mixed with another proposal - make CommitBuilder::build fail with the member's state unchanged; the same violations arriving by reference (rejected credential, unknown PSK, conflicting updates / removals) are dropped, reported as unused and the commit is still accepted by all. (3) Forged public commits, signed with a real member's key under the genuine group context and MACed with the epoch's real membership key (hook H2), carrying remove-committer, double remove, two group-context-extensions, re-init plus another proposal, duplicate PSK id, removal of a non-member or an Add of an existing member, must be rejected by a proposal rule - not merely by the (random) confirmation tag - with the receiver unchanged; a forged commit with one valid Add must reach the confirmation-tag check (sanity of the forger).",
+            "trusted: the forger's wire writer (validated in every run by the valid-Add sanity template); templates not generated: capability / required-capabilities mismatches, expired key packages",
+            "DESIGN.md §6.C10"),
 }
 
 NOT_APPLICABLE = {
